@@ -63,3 +63,28 @@ func VerifH_C02_manyProcs() {
 	vQuiesce()
 	vAssert(vGoroutines() == 0, "goroutines-terminated")
 }
+
+// VerifH_C02_manyBlocks: long files with few decoders: the consumer lags a full
+// pipeline behind the reader and keeps every object; all are compared at the end.
+func VerifH_C02_manyBlocks() {
+	procs := vRange("procs", 1, 2)
+	c := &c09File{f: &mFile{hasHeader: true, header: simpleHeader()}}
+	for b := 0; b < vParam("blocks", 30); b++ {
+		m := simpleBlock(1)
+		c.f.blocks = append(c.f.blocks, m)
+		c.want = append(c.want, m.expected()...)
+	}
+	c.f.build()
+	sc := New(context.Background(), &vReader{data: c.f.data}, procs)
+	var got []osm.Object
+	for sc.Scan() {
+		got = append(got, sc.Object())
+		if len(got) > len(c.want) {
+			break
+		}
+	}
+	vReach("scanned")
+	vAssert(sc.Err() == nil, "no-error")
+	vAssert(vSame(got, c.want), "file-order-and-content")
+	sc.Close()
+}
